@@ -95,6 +95,22 @@ func (c *Ctx) S(rule, key string) *Scope {
 	s := c.P.ScopeOf(f)
 	if s == nil {
 		c.Undecided(rule, key, "anchor", "anchor function has no body")
+		return nil
+	}
+	s.Anchor = true
+	if hs := c.P.privateHelpers(f); len(hs) > 0 {
+		var names []string
+		for _, h := range hs {
+			names = append(names, h.Key)
+		}
+		note := key + " is analysed together with its private helpers (only caller: the anchor): " + strings.Join(names, ", ")
+		dup := false
+		for _, n := range c.P.InlineNotes {
+			dup = dup || n == note
+		}
+		if !dup {
+			c.P.InlineNotes = append(c.P.InlineNotes, note)
+		}
 	}
 	return s
 }
